@@ -142,6 +142,26 @@ class Subst(object):
     def poly(self, e):
         return to_poly(e, env=self.env, atom_of=self.atom_of)
 
+    def closed_form(self, e, depth=0):
+        """True if every local the expression depends on has one non-loop definition (so substitution yields a closed form)"""
+        if depth > 12:
+            return False
+        for n in ast.walk(e):
+            if isinstance(n, ast.Name) and isinstance(n.ctx, ast.Load):
+                if n.id in self.elem_alias:
+                    continue
+                ds = self.defs.get(n.id)
+                if ds is None:
+                    continue        # parameter, global, builtin
+                if n.id in self.params and not ds:
+                    continue
+                d = self.definition(n.id)
+                if d is None:
+                    return False
+                if not self.closed_form(d, depth + 1):
+                    return False
+        return True
+
     def returned(self):
         rets = [n for n in walk_no_nested(self.fn) if isinstance(n, ast.Return) and n.value is not None]
         return rets
